@@ -1432,8 +1432,11 @@ func registerLookupHelper(h *ssa.Function, reg *ssa.Global) int {
 		if !ok {
 			continue
 		}
+		if notFoundReturn(ret, lk) {
+			continue // `if !ok { return nil, false }`: the miss handed on as constants
+		}
 		okv, isEx := ret.Results[1].(*ssa.Extract)
-		if !isEx || okv.Tuple != ssa.Value(lk) || okv.Index != 1 {
+		if (!isEx || okv.Tuple != ssa.Value(lk) || okv.Index != 1) && !okEdgeReturn(ret, lk, true) {
 			return -1
 		}
 		if src, _ := registerSourceNoHelper(ret.Results[0], lk); !src {
@@ -1441,6 +1444,55 @@ func registerLookupHelper(h *ssa.Function, reg *ssa.Global) int {
 		}
 	}
 	return pi
+}
+
+// notFoundReturn: the return hands on (zero value, false) and is reached only
+// on the edge on which the lookup's ok flag is false.
+func notFoundReturn(ret *ssa.Return, lk *ssa.Lookup) bool {
+	if len(ret.Results) != 2 {
+		return false
+	}
+	if z, isZ := ret.Results[0].(*ssa.Const); !isZ || z.Value != nil {
+		return false
+	}
+	return okEdgeReturn(ret, lk, false)
+}
+
+// okEdgeReturn: the return's second result is the constant `want` and the
+// return is reached only on the edge on which the lookup's ok flag has that
+// value.
+func okEdgeReturn(ret *ssa.Return, lk *ssa.Lookup, want bool) bool {
+	if len(ret.Results) != 2 {
+		return false
+	}
+	k, isK := ret.Results[1].(*ssa.Const)
+	if !isK || k.Value == nil || k.Value.Kind() != constant.Bool || constant.BoolVal(k.Value) != want {
+		return false
+	}
+	for _, b := range ret.Parent().Blocks {
+		ifi, ok := b.Instrs[len(b.Instrs)-1].(*ssa.If)
+		if !ok {
+			continue
+		}
+		cond := ifi.Cond
+		missSucc := 1 // if ok {found} else {miss}
+		if u, isNot := cond.(*ssa.UnOp); isNot && u.Op == token.NOT {
+			cond = u.X
+			missSucc = 0
+		}
+		ex, isEx := cond.(*ssa.Extract)
+		if !isEx || ex.Tuple != ssa.Value(lk) || ex.Index != 1 {
+			continue
+		}
+		if want {
+			missSucc = 1 - missSucc
+		}
+		t := b.Succs[missSucc]
+		if len(t.Preds) == 1 && t.Dominates(ret.Block()) {
+			return true
+		}
+	}
+	return false
 }
 
 func storeAddr(in ssa.Instruction) ssa.Value {
